@@ -661,3 +661,37 @@ func vModelColumnsRange(c *columns, fn func(column *column)) {
 	vColumnsRangeCalls++
 	fn(col)
 }
+
+// Reader.Range in this package (its own contract is commit.vLemmaReaderRange: one call per run of the block that was
+// present when the pass started, reader on that run): the delegate runs for one run - the one the harness
+// prepared (vRun*: it starts at byte vRunS with base offset vRunPrev; vRunPos is where its last operation starts).
+var (
+	vRunS, vRunPos int
+	vRunPrev       int32
+	vRangePasses   int          // ghost: passes started so far
+	vRangeChunk    commit.Chunk // ghost: block of the last pass
+	vRangeBuffer   *commit.Buffer
+)
+
+//@ model commit.(*Reader).Range
+func vModelReaderRange(r *commit.Reader, buf *commit.Buffer, chunk commit.Chunk, fn func(*commit.Reader)) {
+	vRangePasses++
+	vRangeChunk, vRangeBuffer = chunk, buf
+	commit.VPlace(r, buf, vRunS, vRunPos, vRunPrev)
+	fn(r)
+}
+
+// columns.LoadWithIndex: the main column of the name followed by its computed columns (indexes, triggers) - here
+// none, one or two of them - or not found.
+var vLoadWithIndexName string
+
+//@ model column.(*columns).LoadWithIndex
+func vModelLoadWithIndex(c *columns, columnName string) ([]*column, bool) {
+	vLoadWithIndexName = columnName
+	if vNondet[bool]() {
+		return nil, false
+	}
+	cols := vNondet[[]*column]()
+	vAssume(len(cols) <= 3 && vForall(0, len(cols), func(i int) bool { return cols[i] != nil }))
+	return cols, true
+}
